@@ -308,9 +308,26 @@ class _Expr(ast.NodeTransformer):
                     flat.append(a)
             node.args = flat
             self.changed = True
+        # E15 `x.__getitem__(k)` is `x[k]`
+        if isinstance(node.func, ast.Attribute) and node.func.attr == "__getitem__" and len(node.args) == 1 and not node.keywords \
+                and not isinstance(node.args[0], ast.Starred):
+            self.changed = True
+            return _loc(ast.Subscript(value=node.func.value, slice=node.args[0], ctx=ast.Load()), node)
         # E9 `map(f, it)` is `(f(x) for x in it)`
+        # E16 `partial(F, a, k=b)(x)` is `F(a, x, k=b)`
+        pf = node.func
+        if (isinstance(pf, ast.Call) and isinstance(pf.func, (ast.Name, ast.Attribute)) and (getattr(pf.func, "id", None) == "partial" or (
+                getattr(pf.func, "attr", None) == "partial" and isinstance(pf.func.value, ast.Name) and pf.func.value.id == "functools"))
+                and pf.args and _simple(pf.args[0]) and all(_simple(a) for a in pf.args[1:]) and all(k.arg and _simple(k.value) for k in pf.keywords)
+                and not any(isinstance(a, ast.Starred) for a in node.args) and all(k.arg for k in node.keywords)
+                and not ({k.arg for k in pf.keywords} & {k.arg for k in node.keywords})):
+            self.changed = True
+            return self.visit(_loc(ast.Call(func=pf.args[0], args=list(pf.args[1:]) + list(node.args), keywords=list(pf.keywords) + list(node.keywords)), node))
+        def _partial_of_simple(f_: ast.expr) -> bool:
+            return (isinstance(f_, ast.Call) and isinstance(f_.func, (ast.Name, ast.Attribute)) and (getattr(f_.func, "id", None) == "partial" or getattr(f_.func, "attr", None) == "partial")
+                    and bool(f_.args) and all(_simple(a) for a in f_.args) and all(k.arg and _simple(k.value) for k in f_.keywords))
         if isinstance(node.func, ast.Name) and node.func.id == "map" and len(node.args) == 2 and not node.keywords and (
-            _simple(node.args[0]) or isinstance(node.args[0], ast.Lambda)
+            _simple(node.args[0]) or isinstance(node.args[0], ast.Lambda) or _partial_of_simple(node.args[0])
         ):
             f0, it0 = node.args
             used = {n.id for n in ast.walk(node) if isinstance(n, ast.Name)}
